@@ -50,6 +50,7 @@ MonInit ==
     seq |-> 0, roundSeq |-> 0,
     idle |-> 0,            \* consecutive progress-free, non-blocking iterations
     cbSince |-> FALSE,     \* a callback ran since the last wait entry
+    lastWR |-> <<0, 0>>,   \* clock when the last wait returned (the library must know at least that much)
     prevW |-> <<FALSE, <<0, 0>>, 0>>,   \* previous wait entry of this iv_main: <<valid, clock, registration seq>>
     ctx |-> "loop",        \* kind of the last callback / API object
     fatal |-> "",
@@ -214,7 +215,13 @@ WaitEnter(m0, e) ==
       hasT == RegTimers(m3) # {}
       mx == IF hasT THEN MinExp(m3) ELSE None
       slack == IF MsGranular(e.p) /\ ~IsNone(e.to) THEN <<0, 999999>> ELSE <<0, 1>>
-      m4 == Chk(m3, hasT, ~IsNone(eff) /\ TsLeq(eff, TsAdd(TsMax(e.now, mx), slack)), "C04:oversleep")
+      (* the loop measures its timeout from the clock it knows: the last value it read, at least the
+         moment the last wait returned.  Time that passes inside callbacks without the program saying so
+         (iv_invalidate_now) is the program's business, time that passes in a wait is the library's *)
+      known == IF TsLt(e.now, TsMax(m3.libNow, m3.lastWR)) THEN e.now ELSE TsMax(m3.libNow, m3.lastWR)
+      aK == IF IsNone(e.to) THEN None ELSE TsAdd(known, e.to)
+      effK == IF IsNone(aK) THEN e.tfd ELSE IF IsNone(e.tfd) THEN aK ELSE IF TsLt(e.tfd, aK) THEN e.tfd ELSE aK
+      m4 == Chk(m3, hasT, ~IsNone(effK) /\ TsLeq(effK, TsAdd(TsMax(known, mx), slack)), "C04:oversleep")
       (* a timer that was registered and due when the previous wait was entered has been through
          a timer pass since (the wait returned, the loop came round): it cannot still be waiting *)
       starved == {t \in RegTimers(m4) : m4.tm[t].seq <= m4.prevW[3] /\ TsLeq(m4.tm[t].exp, m4.prevW[2])}
@@ -260,7 +267,8 @@ WaitRet(m, e) ==
                       !.idle = IF ok THEN @ ELSE 0,
                       (* an interrupted wait is not a timer pass (with the kernel timer armed the loop
                          simply waits again and is woken by it) *)
-                      !.prevW = IF ok THEN @ ELSE <<FALSE, <<0, 0>>, 0>>]
+                      !.prevW = IF ok THEN @ ELSE <<FALSE, <<0, 0>>, 0>>,
+                      !.lastWR = e.now]
       anyW == \E f \in 1..N : \E b \in Band : Wanted(m, f, b) /\ Cond(b, e.tr[f])
   IN Chk(m1, ok /\ anyW, \A f \in Obj : \A b \in Band : m1.fd[f].miss[b] < 3, "C02:not-reported")
 
